@@ -452,3 +452,13 @@ pub(crate) fn into_locate(s: Span) -> Locate {
         len: s.fragment().len(),
     }
 }
+
+#[cfg(feature = "verif_hooks")]
+pub(crate) fn directive_depth() -> usize {
+    IN_DIRECTIVE.with(|x| x.borrow().len())
+}
+
+#[cfg(feature = "verif_hooks")]
+pub(crate) fn version_depth() -> usize {
+    CURRENT_VERSION.with(|x| x.borrow().len())
+}
